@@ -1366,13 +1366,34 @@ func randValue(rng *rand.Rand, depth int) *pb.TypedValue {
 // buildPool returns two independent copies (each passed through marshal ->
 // unmarshal) of the same value list, so that pair (i,i) compares a value with
 // an equal value held in different memory.
+// poolFamily[i] != 0: pool member i belongs to that near-neighbour family.
+var poolFamily []int
+
 func buildPool(r *vlib.Run) (a, b []*pb.TypedValue) {
 	base := fixedPool()
-	size := r.N(120, 600)
+	family := make([]int, len(base))
+	nfam := 0
+	addFamily := func(fam []*pb.TypedValue) {
+		nfam++
+		for _, v := range fam {
+			base = append(base, v)
+			family = append(family, nfam)
+		}
+	}
+	for _, fam := range fixedFamilies() {
+		addFamily(fam)
+	}
+	size := r.N(360, 800)
 	rng := r.Rand("equal-pool", 0)
 	for len(base) < size {
-		base = append(base, randValue(rng, 0))
+		if rng.Intn(2) == 0 {
+			addFamily(randFamily(rng))
+		} else {
+			base = append(base, randValue(rng, 0))
+			family = append(family, 0)
+		}
 	}
+	poolFamily = family
 	for _, v := range base {
 		if v == nil {
 			a, b = append(a, nil), append(b, nil)
@@ -1436,7 +1457,16 @@ func equalPairs(r *vlib.Run) {
 				continue
 			}
 			same := sameContent(a, b)
+			neighbours := i != j && poolFamily[i] != 0 && poolFamily[i] == poolFamily[j]
+			if neighbours {
+				r.Count("equal_near_neighbour_pairs", 1)
+				if !same {
+					r.Count("equal_near_neighbour_pairs_with_different_content_"+arm(a), 1)
+				}
+			}
 			switch {
+			case !ab && a != nil && b != nil && handledByEqual(a) && proto.Equal(a, b):
+				r.Violation("equal", idx, "equal:identical-reported-different:"+arm(a), fmt.Sprintf("Equal reports two identical messages %s and %s as different", tvStr(a), tvStr(b)), wit)
 			case ab && !same && arm(a) != arm(b):
 				r.Violation("equal", idx, "equal:different-arms", fmt.Sprintf("Equal reports %s (%s) and %s (%s) as equal although they use different arms", tvStr(a), arm(a), tvStr(b), arm(b)), wit)
 			case ab && !same:
@@ -1486,16 +1516,17 @@ func main() {
 			"completepath: seeded prefix x path pairs over origins {none, openconfig, o, a/b}, 45% without elements, 8 evaluations on the pair, a rebuilt copy and a clone: both origins -> error, path origin with prefix elems -> error, else origin + prefix index + path index. " +
 			"client: seeded queries (1-3 paths of 0-5 plain elements: non-empty, valid UTF-8, none of [ ] \\ =, no whitespace, '/' anywhere) plus the enumeration of all 1-2 element paths over {a, b/, /a, a/b, /, a//b, *}: real ToSubscribeRequest, marshal/unmarshal, then path.ToStrings, path.CompletePath and the specification index of every subscription path must equal the query elements. " +
 			"scalar: seeded values of 22 kinds (17 supported Go kinds incl. nested []interface{}, invalid UTF-8, unsupported types), ToScalar(FromScalar(x)) directly and through the wire against the widening specification (dynamic type and value). " +
-			"equal: all ordered pairs of a pool (fixed list with every oneof arm, a value without arm and nil, filled to 120 / 600 with seeded values; every member through marshal/unmarshal, two independent copies): no panic, Equal(a,b)=Equal(b,a), Equal(a,b) => same arm and same content. " +
+			"equal: all ordered pairs of a pool (fixed list with every oneof arm, a value without arm and nil; fixed and seeded near-neighbour families — Decimal64 with 8-18 significant digits differing by 1-3 in the last digit, equal decimals encoded differently, float/double differing in the last bit or only beyond float32 precision, ints/uints differing by 1 near 2^24, 2^53, 2^63, each also inside leaf-lists; filled to 360 / 800 with seeded values; every member through marshal/unmarshal, two independent copies): no panic, Equal(a,b)=Equal(b,a), Equal(a,b) => same arm and same content (exact), identical messages of the arms Equal handles => Equal. " +
+			"concurrent: 64 / 256 trials of 4-16 goroutines under GOMAXPROCS 1-16, each indexing its own generated multi-key paths and 8 shared path objects through ToStrings / CompletePath and comparing every result with the specification it computed itself, plus Equal / FromScalar / ToScalar on shared read-only values with the same oracles. " +
 			"Distinct non-trivial: a path with a non-empty index; a prefix/path pair; a query with at least one element; a scalar whose conversion was judged; an ordered pair with at least one non-nil side — hashed by canonical input.",
 		Assumptions: []string{
 			"model.IndexPath / model.IndexPrefix (key values ordered by key name in byte order) are the specification of the index form",
 			"'plain' query element as fixed in DESIGN.md: non-empty, valid UTF-8, none of [ ] \\ =, no whitespace",
 			"the server indexes a subscription with path.ToStrings(path,false) and path.CompletePath(prefix,path) (subscribe.addSubscription / processSubscription); no gRPC transport, the wire is proto marshal/unmarshal",
 			"TypedValues compared by Equal have passed through the wire (no set oneof wrapper around a nil sub-message, no nil leaf-list elements)",
-			"Equal is judged for soundness and symmetry only; pairs with the same content that it reports as different (NaN, JSON, any, ascii, proto_bytes, no value) are counted, not judged",
+			"Equal is judged for totality, symmetry, soundness (exact content; two encodings of the same decimal number may compare either way) and for reporting identical messages of the arms it documents as handled (primitives and scalar arrays of them, NaN excluded) as equal; pairs with the same content in other arms (JSON, any, ascii, proto_bytes, no value, NaN) that it reports as different are counted, not judged",
 			"rejection of invalid UTF-8 inside a []string is recorded, not judged (the statement only asks for an unchanged round trip)",
-			"single goroutine; map-order independence is explored by repetition (Go randomises each range statement), not enumerated",
+			"map-order independence is explored by repetition (Go randomises each range statement), not enumerated; the concurrent mode explores schedules by perturbation (goroutine count, GOMAXPROCS, GC pressure) — its verdict depends only on returned values, a replay re-runs the workload, not the schedule",
 		},
 		QuickShards: 8, ThoroughShards: 16,
 		MinDistinctQuick: 200000, MinDistinctThorough: 2000000,
